@@ -106,7 +106,7 @@ def mkPrims (o : Oracle) : Prims DS :=
     roots := fun _ _ => o.roots
     upgradeItem := fun _ _ => o.upgrade
     eciFull := fun _ _ => o.eciFull
-    eciEmpty := o.eciEmpty
+    eciEmpty := fun _ => o.eciEmpty
     post := fun s _ _ => if o.postFails then .error .post else .ok ({ s with log := s.log ++ "O" }, 0)
     prices := fun s _ =>
       if o.pricesFail then .error .prices
